@@ -1,4 +1,5 @@
 import Mkdb.Proofs.Parse
+import Mkdb.Proofs.Fuel
 /-!
 # C09 — the SQL front end never crashes or hangs on any input
 
@@ -28,6 +29,25 @@ theorem C09_no_panic (input : Input) (s : String) : parseSQL input ≠ .panic s 
   cases hs : scanSQL input with
   | ok ts => rw [hs] at h; exact C09_parse_no_panic ts s h
   | fuel => rw [hs] at h; cases h
+
+/-- **C09.terminates (scanner)**: the scanner never exhausts its fuel `input length + 2`:
+every token consumes at least one rune and every skipped comment at least two. -/
+theorem C09_scan_terminates (input : Input) : scanSQL input ≠ .fuel := scanSQL_ne_fuel input
+
+/-- **C09.terminates (parser)**: with fuel `token count + 2` the parser never runs out of
+fuel: every loop iteration and every recursive production consumes at least one token or
+returns. -/
+theorem C09_parse_terminates (ts : List Token) : ∀ f, ts.length + 2 ≤ f → parseStmt f ts ≠ .fuel :=
+  fun f h => parseStmt_ne_fuel ts f h
+
+/-- **C09.total**: for every input, `parseSQL` yields a statement or an error value —
+neither a panic nor non-termination (fuel exhaustion). -/
+theorem C09_total (input : Input) : (∃ s, parseSQL input = .ok s) ∨ (∃ e, parseSQL input = .err e) := by
+  cases h : parseSQL input with
+  | ok s => exact Or.inl ⟨s, rfl⟩
+  | err e => exact Or.inr ⟨e, rfl⟩
+  | panic s => exact absurd h (C09_no_panic input s)
+  | fuel => exact absurd h (parseSQL_ne_fuel input)
 
 /-- A stripped quote never yields text for an unterminated token: `stripQuotes` succeeds
 only when the token is at least two bytes long and ends with its opening quote. -/
